@@ -89,6 +89,62 @@ fn ops(family: &str) -> Vec<Op> {
                 })));
             }
         }
+        "mutate" => {
+            // each operation builds its own value and mutates it: private objects, so any
+            // cross-talk can only come from state the library shares behind the scenes
+            v.push(("mutate:variants".into(), Box::new(|| {
+                let mut l: Locale = "en-US-u-ca-buddhist".parse().unwrap();
+                l.id.set_variants(&["valencia".parse().unwrap(), "1996".parse().unwrap(), "valencia".parse().unwrap()]);
+                let a = l.to_string();
+                l.id.clear_variants();
+                format!("{} {}", a, l)
+            })));
+            v.push(("mutate:variants2".into(), Box::new(|| {
+                let mut l: LanguageIdentifier = "de".parse().unwrap();
+                l.set_variants(&["fonipa".parse().unwrap(), "1901".parse().unwrap()]);
+                format!("{} {}", l, l.has_variant("1901".parse().unwrap()))
+            })));
+            v.push(("mutate:attributes".into(), Box::new(|| {
+                let mut l: Locale = "en".parse().unwrap();
+                let u = &mut l.extensions.unicode;
+                let r = (u.set_attribute("zzz").is_ok(), u.set_attribute("ABC").is_ok(), u.set_attribute("mmm").is_ok(), u.remove_attribute("abc").ok(), u.set_attribute("a-b").is_ok());
+                format!("{:?} {}", r, l)
+            })));
+            v.push(("mutate:keywords".into(), Box::new(|| {
+                let mut l: Locale = "en-u-nu-thai".parse().unwrap();
+                let u = &mut l.extensions.unicode;
+                let r = (u.set_keyword("CA", &["buddhist", "true"]).is_ok(), u.set_keyword("hc", &[]).is_ok(), u.remove_keyword("nu").ok(), u.set_keyword("c", &["x"]).is_ok());
+                format!("{:?} {}", r, l)
+            })));
+            v.push(("mutate:transform".into(), Box::new(|| {
+                let mut l: Locale = "en-t-h0-hybrid".parse().unwrap();
+                let t = &mut l.extensions.transform;
+                let r = (t.set_tlang("DE_latn-fonipa".parse().unwrap()).is_ok(), t.set_tfield("K1", &["foo", "TRUE"]).is_ok(), t.remove_tfield("h0").ok(), t.set_tfield("1k", &["x"]).is_ok());
+                format!("{:?} {}", r, l)
+            })));
+            v.push(("mutate:private".into(), Box::new(|| {
+                let mut l: Locale = "en-x-zz".parse().unwrap();
+                let p = &mut l.extensions.private;
+                let r = (p.add_tag("B").is_ok(), p.add_tag("a").is_ok(), p.add_tag("a").is_ok(), p.remove_tag("zz").ok(), p.add_tag("").is_ok());
+                format!("{:?} {}", r, l)
+            })));
+            v.push(("mutate:from_parts".into(), Box::new(|| {
+                let l = Locale::from_parts("sr".parse().unwrap(), Some("Cyrl".parse().unwrap()), None, &["ekavsk".parse().unwrap(), "1996".parse().unwrap(), "ekavsk".parse().unwrap()], Some("u-nu-latn-x-a".parse().unwrap()));
+                let s = l.to_string();
+                let (a, b, c, d, e) = l.into_parts();
+                format!("{} {} {:?} {:?} {} {}", s, a, b.map(|x| x.to_string()), c.map(|x| x.to_string()), d.len(), e)
+            })));
+            v.push(("mutate:fields".into(), Box::new(|| {
+                let mut l: Locale = "und".parse().unwrap();
+                l.id.language = "ZH".parse().unwrap();
+                l.id.script = Some("hant".parse().unwrap());
+                l.id.region = Some("tw".parse().unwrap());
+                let a = l.to_string();
+                l.id.language.clear();
+                l.id.script = None;
+                format!("{} {} {}", a, l, l.matches(&"und-TW".parse::<Locale>().unwrap(), false, false))
+            })));
+        }
         _ => {
             eprintln!("unknown family {}", family);
             std::process::exit(2);
